@@ -912,15 +912,16 @@ def gen_whole(tier: str, rng: random.Random) -> Tuple[List[Tuple[Grammar, List[T
             g, _ = rg.grammar(f"c07r{i}")
         corpus.attach_actions(rng, g, rng.choice(['void', 'bool', 'void', 'none']))
         roots = sorted(g.named)[:3]
-        tops = ['plain'] + rng.sample(TOPS[1:], 1 if quick else 3)
+        # every way of placing discards gets its share of the grammars (round-robin, not a draw)
+        tops = ['plain'] + [TOPS[1 + (i + j) % (len(TOPS) - 1)] for j in range(1 if quick else 3)]
         inputs = corpus.sample_inputs(rng, alpha, 4, 60 if quick else 200, longer=6 if quick else 14)
         add(g, roots, tops, inputs, 'random')
     # systematic family: one kind with probes in its slots; the kind itself is the first root
     ns = 8 if quick else 40
     sysg = corpus.systematic(rng, 'c07s', lambda k, f: k not in EXCLUDED_KINDS and k != 'rep_opt0', True, max_grammars=ns, ctx_names=['top', 'seq-tail', 'sor-first'],
                              actions=lambda r, g, roots: corpus.attach_actions(r, g, 'void'))
-    for g, roots, meta in sysg:
-        tops = ['plain', rng.choice(['seqd', 'stard', 'mustd', 'act_succ'])] if quick else ['plain', 'seqd', rng.choice(['stard', 'mustd', 'act_succ'])]
+    for si, (g, roots, meta) in enumerate(sysg):
+        tops = ['plain', TOPS[1 + si % (len(TOPS) - 1)]] if quick else ['plain', 'seqd', TOPS[2 + si % (len(TOPS) - 2)]]
         inputs = corpus.sample_inputs(rng, alpha, 3, 50 if quick else 120, longer=4)
         add(g, roots[:3], tops, inputs, 'systematic:' + meta['kind'])
     # fixed: `everything` (F12), `bytes`, `eolf`, `istring` — atoms the generators above do not produce
